@@ -344,7 +344,13 @@ class SimTransport(asyncio.Transport):
         self._closing = True
         self.conn.client_closed("eof")
         self._conn_lost += 1
-        self._loop.call_soon(self._call_connection_lost, None)
+        # _read_ready__on_eof calls self.close(): with unsent bytes in the write buffer connection_lost is only reported once
+        # the buffer has drained (or a write failed) - the same rule as for close()
+        delay = self.conn.net.drain_delay(self.conn)
+        if delay > 0:
+            self._loop.call_later(delay, self._call_connection_lost, None)
+        else:
+            self._loop.call_soon(self._call_connection_lost, None)
 
     def _sim_reset(self) -> None:
         if self._conn_lost:
